@@ -8,8 +8,10 @@
 //! 1 violation (a `VIOLATION property=<id> replay=<path>` line was printed), 2 harness error.
 
 mod c01;
+mod c06;
 mod c08;
 mod c11;
+mod c17;
 mod c18;
 mod enumf;
 mod engine;
@@ -30,7 +32,7 @@ use json::J;
 use std::collections::BTreeMap;
 
 fn checks() -> Vec<Box<dyn Check>> {
-    vec![Box::new(c01::C01), Box::new(c08::C08), Box::new(c11::C11), Box::new(c18::C18)]
+    vec![Box::new(c01::C01), Box::new(c06::C06), Box::new(c08::C08), Box::new(c11::C11), Box::new(c17::C17), Box::new(c18::C18)]
 }
 
 fn find(id: &str) -> Option<Box<dyn Check>> {
@@ -129,24 +131,34 @@ fn cmd_run(id: &str, tier: &str) -> i32 {
     let mut known_hits: BTreeMap<String, u64> = BTreeMap::new();
     let mut reported = 0usize;
     let mut harness_error = false;
-    for class in order.iter() {
-        let v = by_class[class];
-        if let Some(k) = known.iter().find(|k| k.property == id && k.class == *class) {
-            let n = out.violations.iter().filter(|x| x.class == *class).count() as u64;
+    let mut seen_final: Vec<String> = Vec::new();
+    for class0 in order.iter() {
+        let v = by_class[class0];
+        if reported >= 5 {
+            break;
+        }
+        // minimise first: the class of the minimised case is what is reported and what a
+        // known finding is matched against
+        let (min_case, spent) = minimise(check.as_ref(), &v.case, class0, 4000);
+        let mut log = Vec::new();
+        let (class, detail) = match check.replay(&min_case, Some(&mut log)) {
+            Ok(Some((c, d))) => (c, d),
+            other => {
+                println!("# harness error: minimised case of class {class0} (episode {}) no longer violates in-process: {other:?}", v.episode);
+                harness_error = true;
+                continue;
+            }
+        };
+        if seen_final.contains(&class) {
+            continue;
+        }
+        seen_final.push(class.clone());
+        if let Some(k) = known.iter().find(|k| k.property == id && k.class == class) {
+            let n = out.violations.iter().filter(|x| check.same_class(&x.class, &class)).count() as u64;
             println!("KNOWN-FINDING: property={} {} [{}] ({} occurrences)", id, k.what, k.id, n);
             known_hits.insert(k.id.clone(), n);
             continue;
         }
-        if reported >= 5 {
-            continue;
-        }
-        let (min_case, spent) = minimise(check.as_ref(), &v.case, class, 4000);
-        let mut log = Vec::new();
-        let verdict = check.replay(&min_case, Some(&mut log));
-        let detail = match &verdict {
-            Ok(Some((_, d))) => d.clone(),
-            _ => v.detail.clone(),
-        };
         let file = J::obj()
             .set("format", 1)
             .set("property", id)
@@ -162,7 +174,7 @@ fn cmd_run(id: &str, tier: &str) -> i32 {
         let path = write_replay(id, seed, &file);
         // the minimised file must reproduce in a fresh process before it is reported
         match fresh_replay(&path) {
-            Some((1, c)) if c == *class => {
+            Some((1, c)) if c == class => {
                 println!("VIOLATION property={} replay={}", id, path);
                 println!("#   class={} episode={} detail={}", class, v.episode, detail);
                 reported += 1;
